@@ -1,17 +1,36 @@
-"""c07 (shared Connection families)"""
+"""C07 - stop callback fires exactly once per established session, with the right reason."""
 
-from vf.props import conn_common
+from vf import clientsim
+from vf.props import c19, conn_common
 
 
 def run(ctx):
     ctx.rule = (
-        "TLC: all interleavings of user calls, device events, faults (<= 2) and task resumptions within the bounds "
-        "(action properties ForwardOnly, ClosedFinal; invariant ConnectedFlag); schedules: one per distinct quiescent model "
-        "state + random stories with faults; each executed on the real APIConnection, state sampled after EVERY loop "
-        "callback, traces validated by TLC; distinct = distinct schedule"
+        "TLC: StopAtMostOnce, StopOnlyIfConnected, StopWhenClosedAfterConnected over all interleavings of user calls, device events, "
+        "faults (<= 2) and task resumptions within the bounds; schedules: one per distinct quiescent model state + a close cause before "
+        "every step + random stories; each executed on the real APIConnection, the stop callback's invocations and arguments sampled "
+        "after EVERY loop callback, traces validated by TLC; client level: the application's stop callback is counted in the traces of "
+        "the real APIClient (a disturbance at every stage of a connect, stop callbacks that reconnect) and must equal the number of "
+        "ended sessions (Client.tla nstop); distinct = distinct schedule"
     )
     conn_common.run_general_property(ctx)
+    # client level: the callback the application handed to connect() / start_connection()
+    fams = {"client_stages": clientsim.stage_family(c19.CFGS[:2]), "client_stop_hook": clientsim.stop_hook_family(c19.CFGS[:1])}
+    for name, cases in fams.items():
+        res = c19.run_family(ctx, name, cases)
+        ctx.evaluations += res["n"]
+        ctx.distinct |= {(name, i) for i in range(res["n"])}
+        ctx.extra[f"reached_{name}"] = res["reach"]
+        for f in res["findings"]:
+            if "ns" in f["fields"] or f["fields"] == ["hang"]:
+                ctx.violation(f"Client/{name}/{f['cause']}/{'+'.join(f['fields'])}", {"kind": "client-trace", "family": name, **f})
+            else:
+                ctx.notes.append(f"client-level mismatch outside C07 ({f['fields']}) seen in family {name}")
+    ctx.notes[:] = sorted(set(ctx.notes))[:20]
 
 
 def replay(ctx, case):
-    conn_common.replay_case(ctx, case)
+    if case.get("kind") == "client-trace":
+        c19.replay(ctx, case)
+    else:
+        conn_common.replay_case(ctx, case)
